@@ -80,9 +80,37 @@ func OracleFullVsMem(prefix string) SeqOracle {
 		if len(fs) != len(mm) {
 			return nil
 		}
+		// What a clock step delivers (expiry / timeout notices and the grants they cause) may fall into this step in
+		// one execution and into the next in the other when a sweeper tick and the end of the step coincide: those
+		// events are compared as one multiset per client over the whole run (drain included); request steps are
+		// compared one by one, and states only while the notices delivered so far agree.
+		accF, accM := map[string][]string{}, map[string][]string{}
+		same := func() bool {
+			for _, cl := range []string{"a", "b", "c", "d"} {
+				x, y := append([]string{}, accF[cl]...), append([]string{}, accM[cl]...)
+				sort.Strings(x)
+				sort.Strings(y)
+				if strings.Join(x, "|") != strings.Join(y, "|") {
+					return false
+				}
+			}
+			return true
+		}
 		for i := range fs {
 			where := fmt.Sprintf("step %d (%s) of %v", i-len(r.Ramp)+1, fs[i].Op.String(), histStrings(hist))
 			fe, me := evs(fs[i].Events), evs(mm[i].Events)
+			if fs[i].Op.Cmd == nil {
+				for cl, l := range fe {
+					accF[cl] = append(accF[cl], l...)
+				}
+				for cl, l := range me {
+					accM[cl] = append(accM[cl], l...)
+				}
+				continue
+			}
+			if !same() {
+				continue
+			}
 			for _, cl := range []string{"a", "b", "c", "d"} {
 				if strings.Join(fe[cl], " | ") != strings.Join(me[cl], " | ") {
 					return []explore.Violation{{Sig: prefix + ":connection-replies-differ-from-in-memory", Msg: fmt.Sprintf("%s: over its real connection client %s received [%s]; the same history through in-memory protocol objects gives it [%s]", where, cl, strings.Join(fe[cl], " | "), strings.Join(me[cl], " | "))}}
@@ -93,10 +121,20 @@ func OracleFullVsMem(prefix string) SeqOracle {
 			}
 		}
 		if r.Drained != nil && mr.Drained != nil {
-			fe, me := evs(r.DrainEv), evs(mr.DrainEv)
-			for _, cl := range []string{"a", "b", "c", "d"} {
-				if strings.Join(fe[cl], " | ") != strings.Join(me[cl], " | ") {
-					return []explore.Violation{{Sig: prefix + ":connection-replies-differ-from-in-memory", Msg: fmt.Sprintf("history %v, while everything was released and 40 s passed: over its real connection client %s received [%s]; in memory [%s]", histStrings(hist), cl, strings.Join(fe[cl], " | "), strings.Join(me[cl], " | "))}}
+			for cl, l := range evs(r.DrainEv) {
+				accF[cl] = append(accF[cl], l...)
+			}
+			for cl, l := range evs(mr.DrainEv) {
+				accM[cl] = append(accM[cl], l...)
+			}
+			if !same() {
+				for _, cl := range []string{"a", "b", "c", "d"} {
+					x, y := append([]string{}, accF[cl]...), append([]string{}, accM[cl]...)
+					sort.Strings(x)
+					sort.Strings(y)
+					if strings.Join(x, "|") != strings.Join(y, "|") {
+						return []explore.Violation{{Sig: prefix + ":connection-replies-differ-from-in-memory", Msg: fmt.Sprintf("history %v: over the clock steps and the final drain client %s received over its real connection [%s]; through in-memory protocol objects [%s]", histStrings(hist), cl, strings.Join(x, " | "), strings.Join(y, " | "))}}
+					}
 				}
 			}
 		}
